@@ -68,6 +68,8 @@ func init() {
 			readsStarted.Add(1)
 		case "readmessage.read.after":
 			readsDone.Add(1)
+		default:
+			psPoint(name)
 		}
 	}
 }
